@@ -188,9 +188,30 @@ def check(run):
     else:
         run.inconclusive('initial state of check_methods', 'T', 'expected two HashMap::new, two None markers and a walk_methods call')
     bounded_obligations(run, S, (1, 2, 3, 4) if run.tier == 'thorough' else (1, 2, 3), None)
+    code_source_obligation(run)
     ok, n, detail = tc.outer_methods_args(S, 'walk_methods')
     c15 = __import__('c15')
     c15.report(run, 'walk_methods yields every method of an interface in source order and never a constant', ok, detail, nat_bad, queries=n, bound='widths <= 2')
+
+
+def code_source_obligation(run):
+    """the code check_methods compares is the number as written: read off the Method grammar action (content evaluator of C02)"""
+    import mirror, replay
+    title = 'the transact code a method carries in the tree is the parsed INTEGER of its declaration on every path where the number fits, and absent only when none is written'
+    try:
+        An = mirror.Analysis(replay.generated_parser(), mir.Program(mir.dump_mir()))
+        viol, nq = An.constants()
+    except (mir.Unsupported, RuntimeError) as e:
+        run.inconclusive(title, 'A', str(e)); return
+    tc_viol = {k: v for k, v in viol.items() if k.startswith('transact-code')}
+    if An.unsupported:
+        run.inconclusive(title, 'A', 'action outside the evaluator: ' + An.unsupported[0])
+    elif tc_viol:
+        nb = native.sweep_c09()[1]
+        k0 = sorted(tc_viol)[0]
+        run.violated(title, 'A', k0, {'solver': tc_viol[k0][:2], 'native': nb[:1]}, bool(nb), detail=k0)
+    else:
+        run.holds(title, 'A', queries=max(1, nq), bound='all paths of the 8 Method productions')
 
 
 def bounded_obligations(run, S, sizes, why):
